@@ -230,10 +230,15 @@ impl CorruptSpec {
                 let s = &mut streams[tables[*tsel as usize % tables.len()]];
                 let cells = s.data.len() / 2;
                 let c = (*csel as usize % cells) * 2;
-                let v: u16 = match kind % 4 {
+                let v: u16 = match kind % 8 {
                     0 => 0,
                     1 => 0xffff,
                     2 => pool_entries,
+                    // the integer 0, -1, 1 and the largest, in 16-bit offset-binary
+                    4 => 0x8000,
+                    5 => 0x7fff,
+                    6 => 0x8001,
+                    7 => 0xfffe,
                     _ => rng.next_u64() as u16,
                 };
                 s.data[c..c + 2].copy_from_slice(&v.to_le_bytes());
@@ -299,11 +304,14 @@ impl CorruptSpec {
                     return false;
                 }
                 let mut e = 4 + (*sel as usize % n) * 4;
-                if kind % 8 >= 6 {
+                if kind % 10 == 6 || kind % 10 == 7 {
                     // the very last record of the pool
                     e = 4 + (n - 1) * 4;
                 }
-                match kind % 8 {
+                match kind % 10 {
+                    // one or two references short of saturation
+                    8 => d[e + 2..e + 4].copy_from_slice(&0xfffeu16.to_le_bytes()),
+                    9 => d[e + 2..e + 4].copy_from_slice(&0xfffdu16.to_le_bytes()),
                     6 => {
                         // ... becomes the first half of a long-string entry whose second half is missing
                         d[e..e + 2].copy_from_slice(&0u16.to_le_bytes());
